@@ -920,9 +920,18 @@ func newCommonNode(ctx context.Context, cfg CommonConfig) *commonNode {
 // TransactionResultsFromCometBFT converts CometBFT transactions and responses
 // into transaction results.
 func TransactionResultsFromCometBFT(height int64, txs [][]byte, responses []*cmtabcitypes.ResponseDeliverTx) ([]*results.Result, error) {
+	// Responses may come from an untrusted source (e.g. stateless client).
+	if len(responses) != len(txs) {
+		return nil, fmt.Errorf("cometbft: mismatched number of transaction results (transactions: %d results: %d)", len(txs), len(responses))
+	}
+
 	txResults := make([]*results.Result, 0, len(txs))
 
 	for idx, rs := range responses {
+		if rs == nil {
+			return nil, fmt.Errorf("cometbft: malformed transaction result")
+		}
+
 		// Transaction result.
 		result := &results.Result{
 			Error: results.Error{
